@@ -1,5 +1,7 @@
 (* C05 — Earliest admissible occurrence: no missed run, filters honoured (statements only). *)
 From EAS Require Import Base Civil Time TimeFacts Filters Replace Producers ProdStrict ProdEarliest.
+From EAS Require Import TimeOrder ProdEarliest2 ProdGroup.
+From EASGen Require Import Generated.
 
 (* interval: the answer is the EARLIEST point of the grid (through the cached point / start) that lies after
    the reference instant and that the filter accepts on the system-local date and time; a rejected point is
@@ -35,3 +37,80 @@ Theorem C05_strictly_future :
   forall E p st dt v st', wf_producer p -> get_next E p st dt = (Ok v, st') -> dt < v.
 Proof. exact next_strictly_future. Qed.
 Print Assumptions C05_strictly_future.
+
+(* ---- additions to props/C05.v; needs in the header:
+   From EAS Require Import TimeOrder ProdEarliest2 ProdGroup.   (after the existing imports) ---- *)
+
+(* time of day, FULL (replaces C05_time_walk_earliest_partial): for a table whose offsets differ by at most 4 h
+   and a time of day in [0, 24 h): the answer is the earliest instant after dt that is an occurrence of SOME
+   local day (as the DST policy selects it) and that the filter accepts on its local date-time. *)
+Theorem C05_time_earliest :
+  forall z tr f dt v, wf_tz_b z = true -> wf_tr tr ->
+    next_time z tr f dt = Ok v -> earliest_after (occ_time z tr f) dt v.
+Proof. exact time_earliest. Qed.
+Print Assumptions C05_time_earliest.
+
+(* the two facts behind it: results of different local days are in chronological order, and the walk starts
+   early enough (one local day before dt; F14) *)
+Theorem C05_day_results_order :
+  forall z tr d d' u u', spread z <= 4 * 3600 ->
+    In u (day_results z tr d) -> In u' (day_results z tr d') -> d < d' -> u < u'.
+Proof. exact day_results_order. Qed.
+Print Assumptions C05_day_results_order.
+
+Theorem C05_day_results_walk_start :
+  forall z tr d u dt, spread z <= 4 * 3600 -> tr_tod tr < DAY ->
+    In u (day_results z tr d) -> dt < u -> local_day (to_local z dt) - 1 <= d.
+Proof. exact day_results_walk_start. Qed.
+Print Assumptions C05_day_results_walk_start.
+
+(* group: the member loop of the model as a top-level function (convertible with get_next's PGroup case) *)
+Theorem C05_get_next_group :
+  forall E ps f st dt,
+    get_next E (PGroup ps f) st dt = finish_loop (iter_until loop_bound (group_round E ps f dt) (dt, st)).
+Proof. exact get_next_group. Qed.
+Print Assumptions C05_get_next_group.
+
+(* group, generic: members that answer with the earliest element of their (state-independent) occurrence set,
+   from every state satisfying an invariant they preserve, make a group that does the same for the union of
+   the members' sets cut down by the group filter *)
+Theorem C05_group_member_ok :
+  forall E (Inv : pstate -> Prop) (P : producer -> Z -> Prop) ps f,
+    (forall q, In q ps -> member_ok E Inv (P q) q) ->
+    member_ok E Inv (fun u => union_occ P ps u /\ allow_opt (pz E) f u = true) (PGroup ps f).
+Proof. exact group_member_ok. Qed.
+Print Assumptions C05_group_member_ok.
+
+(* group, stateless member specifications *)
+Theorem C05_group_earliest :
+  forall E (P : producer -> Z -> Prop) ps f st dt v st',
+    (forall q, In q ps -> forall s x n s', get_next E q s x = (Ok n, s') -> earliest_after (P q) x n) ->
+    get_next E (PGroup ps f) st dt = (Ok v, st') ->
+    earliest_after (fun u => (exists q, In q ps /\ P q u) /\ allow_opt (pz E) f u = true) dt v.
+Proof. exact group_earliest. Qed.
+Print Assumptions C05_group_earliest.
+
+(* time-of-day triggers, interval triggers with a start, groups of such to any depth, member and group
+   filters: the answer is the earliest element after dt of the expression's occurrence set [occ] *)
+Theorem C05_tig_earliest :
+  forall E G, wf_tz_b (pz E) = true -> consistent G ->
+  forall p st dt v st', tig p -> incl (leaves p) G -> cache_on_grid G st ->
+    get_next E p st dt = (Ok v, st') -> earliest_after (occ (pz E) p) dt v /\ cache_on_grid G st'.
+Proof. exact tig_earliest. Qed.
+Print Assumptions C05_tig_earliest.
+
+Theorem C05_group_earliest_tig :
+  forall E ps f dt v st',
+    wf_tz_b (pz E) = true -> tig (PGroup ps f) -> consistent (leaves (PGroup ps f)) ->
+    get_next E (PGroup ps f) pstate0 dt = (Ok v, st') ->
+    earliest_after (fun u => (exists q, In q ps /\ occ (pz E) q u) /\ allow_opt (pz E) f u = true) dt v.
+Proof. exact group_earliest_tig. Qed.
+Print Assumptions C05_group_earliest_tig.
+
+(* and a chain of answers lists the occurrence set in increasing order without omission or repetition *)
+Theorem C05_tig_chain_enumerates :
+  forall E G, wf_tz_b (pz E) = true -> consistent G ->
+  forall p, tig p -> incl (leaves p) G ->
+  forall n st dt, cache_on_grid G st -> enumerates (occ (pz E) p) dt (chain E p st dt n).
+Proof. exact tig_chain_enumerates. Qed.
+Print Assumptions C05_tig_chain_enumerates.
